@@ -38,6 +38,7 @@ package schnorr
 //@   ensures [C11.nonzero-response] result && issecp(X.curve) ==> val(pf.T) % curveN(X.curve) != 0
 //@   ensures [C12.equation-with-recomputed-challenge] result ==> (ecbasex(X.curve, val(pf.T)) == ecaddx(pf.Alpha.curve, px(pf.Alpha), py(pf.Alpha), ecmulx(X.curve, px(X), py(X), chalZK(Session, X.curve, px(X), py(X), px(pf.Alpha), py(pf.Alpha))), ecmuly(X.curve, px(X), py(X), chalZK(Session, X.curve, px(X), py(X), px(pf.Alpha), py(pf.Alpha)))))
 //@   ensures [C12.equation-y] result ==> (ecbasey(X.curve, val(pf.T)) == ecaddy(pf.Alpha.curve, px(pf.Alpha), py(pf.Alpha), ecmulx(X.curve, px(X), py(X), chalZK(Session, X.curve, px(X), py(X), px(pf.Alpha), py(pf.Alpha))), ecmuly(X.curve, px(X), py(X), chalZK(Session, X.curve, px(X), py(X), px(pf.Alpha), py(pf.Alpha)))))
+//@   ensures [C10.complete-every-check-passes-implies-accepted] (pf != nil && pf.T != nil && pf.Alpha != nil && val(pf.T) % curveN(X.curve) != 0 && oncurve(pf.Alpha.curve, ecaddx(pf.Alpha.curve, px(pf.Alpha), py(pf.Alpha), ecmulx(X.curve, px(X), py(X), chalZK(Session, X.curve, px(X), py(X), px(pf.Alpha), py(pf.Alpha))), ecmuly(X.curve, px(X), py(X), chalZK(Session, X.curve, px(X), py(X), px(pf.Alpha), py(pf.Alpha)))), ecaddy(pf.Alpha.curve, px(pf.Alpha), py(pf.Alpha), ecmulx(X.curve, px(X), py(X), chalZK(Session, X.curve, px(X), py(X), px(pf.Alpha), py(pf.Alpha))), ecmuly(X.curve, px(X), py(X), chalZK(Session, X.curve, px(X), py(X), px(pf.Alpha), py(pf.Alpha))))) && ecbasex(X.curve, val(pf.T)) == ecaddx(pf.Alpha.curve, px(pf.Alpha), py(pf.Alpha), ecmulx(X.curve, px(X), py(X), chalZK(Session, X.curve, px(X), py(X), px(pf.Alpha), py(pf.Alpha))), ecmuly(X.curve, px(X), py(X), chalZK(Session, X.curve, px(X), py(X), px(pf.Alpha), py(pf.Alpha)))) && ecbasey(X.curve, val(pf.T)) == ecaddy(pf.Alpha.curve, px(pf.Alpha), py(pf.Alpha), ecmulx(X.curve, px(X), py(X), chalZK(Session, X.curve, px(X), py(X), px(pf.Alpha), py(pf.Alpha))), ecmuly(X.curve, px(X), py(X), chalZK(Session, X.curve, px(X), py(X), px(pf.Alpha), py(pf.Alpha))))) ==> result
 
 //@ func NewZKVProof
 //@   props C06 C10 C12
@@ -58,3 +59,4 @@ package schnorr
 //@   ensures [C11.nonzero-responses] result && issecp(V.curve) ==> (val(pf.T) % curveN(V.curve) != 0 && val(pf.U) % curveN(V.curve) != 0)
 //@   ensures [C12.equation-with-recomputed-challenge] result ==> (ecaddx(V.curve, ecmulx(V.curve, px(R), py(R), val(pf.T)), ecmuly(V.curve, px(R), py(R), val(pf.T)), ecbasex(V.curve, val(pf.U)), ecbasey(V.curve, val(pf.U))) == ecaddx(pf.Alpha.curve, px(pf.Alpha), py(pf.Alpha), ecmulx(V.curve, px(V), py(V), chalZKV(Session, V.curve, px(V), py(V), px(R), py(R), px(pf.Alpha), py(pf.Alpha))), ecmuly(V.curve, px(V), py(V), chalZKV(Session, V.curve, px(V), py(V), px(R), py(R), px(pf.Alpha), py(pf.Alpha)))))
 //@   ensures [C12.equation-y] result ==> (ecaddy(V.curve, ecmulx(V.curve, px(R), py(R), val(pf.T)), ecmuly(V.curve, px(R), py(R), val(pf.T)), ecbasex(V.curve, val(pf.U)), ecbasey(V.curve, val(pf.U))) == ecaddy(pf.Alpha.curve, px(pf.Alpha), py(pf.Alpha), ecmulx(V.curve, px(V), py(V), chalZKV(Session, V.curve, px(V), py(V), px(R), py(R), px(pf.Alpha), py(pf.Alpha))), ecmuly(V.curve, px(V), py(V), chalZKV(Session, V.curve, px(V), py(V), px(R), py(R), px(pf.Alpha), py(pf.Alpha)))))
+//@   ensures [C10.complete-every-check-passes-implies-accepted] (pf != nil && pf.T != nil && pf.U != nil && validPoint(pf.Alpha) && val(pf.T) % curveN(V.curve) != 0 && val(pf.U) % curveN(V.curve) != 0 && oncurve(V.curve, ecaddx(V.curve, ecmulx(V.curve, px(R), py(R), val(pf.T)), ecmuly(V.curve, px(R), py(R), val(pf.T)), ecbasex(V.curve, val(pf.U)), ecbasey(V.curve, val(pf.U))), ecaddy(V.curve, ecmulx(V.curve, px(R), py(R), val(pf.T)), ecmuly(V.curve, px(R), py(R), val(pf.T)), ecbasex(V.curve, val(pf.U)), ecbasey(V.curve, val(pf.U)))) && oncurve(pf.Alpha.curve, ecaddx(pf.Alpha.curve, px(pf.Alpha), py(pf.Alpha), ecmulx(V.curve, px(V), py(V), chalZKV(Session, V.curve, px(V), py(V), px(R), py(R), px(pf.Alpha), py(pf.Alpha))), ecmuly(V.curve, px(V), py(V), chalZKV(Session, V.curve, px(V), py(V), px(R), py(R), px(pf.Alpha), py(pf.Alpha)))), ecaddy(pf.Alpha.curve, px(pf.Alpha), py(pf.Alpha), ecmulx(V.curve, px(V), py(V), chalZKV(Session, V.curve, px(V), py(V), px(R), py(R), px(pf.Alpha), py(pf.Alpha))), ecmuly(V.curve, px(V), py(V), chalZKV(Session, V.curve, px(V), py(V), px(R), py(R), px(pf.Alpha), py(pf.Alpha))))) && ecaddx(V.curve, ecmulx(V.curve, px(R), py(R), val(pf.T)), ecmuly(V.curve, px(R), py(R), val(pf.T)), ecbasex(V.curve, val(pf.U)), ecbasey(V.curve, val(pf.U))) == ecaddx(pf.Alpha.curve, px(pf.Alpha), py(pf.Alpha), ecmulx(V.curve, px(V), py(V), chalZKV(Session, V.curve, px(V), py(V), px(R), py(R), px(pf.Alpha), py(pf.Alpha))), ecmuly(V.curve, px(V), py(V), chalZKV(Session, V.curve, px(V), py(V), px(R), py(R), px(pf.Alpha), py(pf.Alpha)))) && ecaddy(V.curve, ecmulx(V.curve, px(R), py(R), val(pf.T)), ecmuly(V.curve, px(R), py(R), val(pf.T)), ecbasex(V.curve, val(pf.U)), ecbasey(V.curve, val(pf.U))) == ecaddy(pf.Alpha.curve, px(pf.Alpha), py(pf.Alpha), ecmulx(V.curve, px(V), py(V), chalZKV(Session, V.curve, px(V), py(V), px(R), py(R), px(pf.Alpha), py(pf.Alpha))), ecmuly(V.curve, px(V), py(V), chalZKV(Session, V.curve, px(V), py(V), px(R), py(R), px(pf.Alpha), py(pf.Alpha))))) ==> result
